@@ -27,11 +27,10 @@ MANIFEST = {
     "text": "decides D1 full-field copy, D2 re-init delegating to init with init defining the whole object, D3 "
             "the load-before-store discipline that makes input == output safe in every back end's primitives, D4 "
             "the partial-block position plumbing, and - bounded over enumerated sizes, exact over all data values "
-            "- D5 chunked and in-place incremental AEAD equals the one-shot specification result and D6 the "
-            "incremental hash / XOF / PRF / KMAC / KDF / HMAC / HKDF interfaces give the bytes of the library's "
-            "own one-shot call for a spread of partitions of input and output (empty calls, 1-byte pieces, pieces "
-            "shorter/equal/longer than the rate, calls that start mid-block and cross block boundaries); all "
-            "partitions of all lengths are not decided",
+            "- D5 chunked and in-place incremental AEAD and sender / receiver sessions on a reused state equal "
+            "the one-shot specification result and D6 the incremental hash / XOF / PRF / KMAC / KDF / HMAC / HKDF "
+            "interfaces give the bytes of the library's own one-shot call for a spread of partitions of input and "
+            "output; all partitions of all lengths are not decided",
     "note": "trusted: clang lowering, irdump; D3 treats two accesses as the same position when they use the "
             "same index expression / parallel loop pointers and overlapping constant offsets",
     "technique": "must-define dataflow, call delegation matching, ordered access-pair analysis on the CFG "
